@@ -388,7 +388,11 @@ func (e *Exec) contractCall(ins ssa.Instruction, key string, fc *FuncContract, s
 	for _, sa := range fc.Asserts {
 		if sa.LetName != "" {
 			if _, ok := env.vars[sa.LetName]; !ok {
-				env.vars[sa.LetName] = Scalar{Fresh("rem."+sa.LetName, BoolSort)}
+				if sa.IntVal {
+					env.vars[sa.LetName] = Scalar{Fresh("rem."+sa.LetName, I64)}
+				} else {
+					env.vars[sa.LetName] = Scalar{Fresh("rem."+sa.LetName, BoolSort)}
+				}
 			}
 		}
 	}
@@ -833,6 +837,11 @@ func (e *Exec) siteAsserts(ins ssa.Instruction, callee string, args []Value, st 
 			env.results = r
 		default:
 			env.results = []Value{r}
+		}
+		if sa.LetName != "" && sa.IntVal {
+			// remembered integer: path-sensitive ghost, 0 until defined
+			st.ghost["let:"+sa.LetName] = e.toI64(env.eval(sa.Clause.Expr))
+			continue
 		}
 		if sa.LetName != "" {
 			// remembered boolean: path-sensitive ghost (0/1), false until defined
